@@ -149,3 +149,64 @@ func TestVerifReplay(t *testing.T) {
 		enc.Encode(vRunOne(req))
 	}
 }
+
+// Cold start under concurrency: in a fresh process the very first calls into the library come
+// from many goroutines at once (lazily initialised package-level state is built here, if there
+// is any). Results must equal those of a later sequential run; the binary is built with
+// -race, so an unsynchronised initialisation is reported by the race detector.
+func TestVerifColdStart(t *testing.T) {
+	if os.Getenv("VERIF_COLD") == "" {
+		t.Skip("not requested")
+	}
+	exprs := append([]string{"MIT AND (Apache-2.0 OR GPL-2.0+)", "zlib-acknowledgement AND wxWindows OR ZPL-2.1", "GPL-2.0-only WITH Classpath-exception-2.0",
+		"LicenseRef-x OR DocumentRef-d:LicenseRef-y", "(Apache-2.0-or-later)", "mit AND isc", "NOT-A-LICENSE"}, vPool...)
+	allowed := []string{"MIT", "Apache-2.0", "GPL-3.0-only", "zlib", "LicenseRef-x"}
+	type res struct {
+		sat     bool
+		satErr  bool
+		ext     string
+		valid   bool
+		invalid string
+	}
+	one := func(e string) res {
+		var r res
+		s, err := Satisfies(e, allowed)
+		r.sat, r.satErr = s, err != nil
+		l, _ := ExtractLicenses(e)
+		r.ext = fmt.Sprint(l)
+		ok, inv := ValidateLicenses([]string{e, "Zlib", e})
+		r.valid, r.invalid = ok, fmt.Sprint(inv)
+		return r
+	}
+	const G = 16
+	got := make([][]res, G)
+	start := make(chan struct{})
+	done := make(chan int, G)
+	for g := 0; g < G; g++ {
+		go func(g int) {
+			<-start
+			out := make([]res, len(exprs))
+			for i := range exprs {
+				out[i] = one(exprs[(i+g)%len(exprs)])
+			}
+			got[g] = out
+			done <- g
+		}(g)
+	}
+	close(start)
+	for g := 0; g < G; g++ {
+		<-done
+	}
+	bad := 0
+	for g := 0; g < G; g++ {
+		for i := range exprs {
+			if got[g][i] != one(exprs[(i+g)%len(exprs)]) {
+				bad++
+				fmt.Printf("COLD-MISMATCH expression %q: concurrent first use and sequential use disagree\n", exprs[(i+g)%len(exprs)])
+			}
+		}
+	}
+	if bad > 0 {
+		t.Fail()
+	}
+}
